@@ -235,6 +235,13 @@ def translate(tu, repo='/repo'):
     ms = [m for m in methods_of(spec, 'pvFindFirst') if len(params(m)) == 1]
     if len(ms) < 1: raise TranslationError('TreeSet::pvFindFirst(itemPred) not instantiated')
     out += emit('pvFindFirst_descent', 'TreeSet', ms[0])
+    # C02 final round: GetBegin, pvMakeIterator and the iterator constructor that pvMakeIterator calls (move => pvMoveIf)
+    ms = [m for m in methods_of(spec, 'GetBegin') if len(params(m)) == 0]
+    if len(ms) < 1: raise TranslationError('TreeSet::GetBegin not instantiated')
+    out += emit('GetBegin_body', 'TreeSet', ms[0])
+    ms = [m for m in methods_of(spec, 'pvMakeIterator') if len(params(m)) == 3]
+    if len(ms) < 1: raise TranslationError('TreeSet::pvMakeIterator not instantiated')
+    out += emit('pvMakeIterator_body', 'TreeSet', ms[0])
     cfg2 = {'tu': tu, 'filter': 'TreeSetConstIterator', 'class': 'TreeSetConstIterator', 'includes': [os.path.join(repo, 'include')]}
     objs2 = cxx2coq.load_objs(cxx2coq.dump_ast(cfg2, repo))
     spec2 = cxx2coq.find_spec(objs2, cfg2)
@@ -242,6 +249,11 @@ def translate(tu, repo='/repo'):
         ms = [m for m in methods_of(spec2, nm) if len(params(m)) == ar]
         if len(ms) < 1: raise TranslationError('TreeSetConstIterator::%s not instantiated' % nm)
         out += emit(coqname, 'TreeSetConstIterator', ms[0])
+    ctors = [m for m in spec2.get('inner', []) if m.get('kind') == 'CXXConstructorDecl' and len(params(m)) == 4 and 'move' in params(m)
+             and any(y.get('kind') == 'CompoundStmt' for y in m.get('inner', []))]
+    if len(ctors) != 1: raise TranslationError('TreeSetConstIterator(node, itemIndex, version, move) not found once')
+    out += ['(* TreeSetConstIterator::TreeSetConstIterator(%s): mNode(&node), mItemIndex(itemIndex), then this body *)' % ', '.join(params(ctors[0])),
+            'Definition iter_ctor_body : list pstmt :=\n  %s.\n' % lst(['\n   ' + x for x in block(body_of(ctors[0]))])]
     return '\n'.join(out) + '\n'
 
 
